@@ -38,7 +38,7 @@ theorem reconnect_processSotw (gen : Gen) (v : Srv) (t : Ty) (names : List Strin
     (hfresh : v.st t = none) (hsub : (names.isEmpty && !t.wildcard) = false) (hok : v.fail = false)
     (hgen : (gen t names).resNil = false) :
     ∃ v', processSotw gen v { ty := t, names := names, nonce := oldNonce, err := none }
-      = some (v', [{ ty := t, resources := (gen t names).res, removed := [] }]) := by
+      = some (v', [{ ty := t, resources := (gen t names).res, removed := [], nonce := freshNonce v }]) := by
   unfold processSotw
   rw [reconnect_request_answered_sotw v.st t names oldNonce hfresh hsub]
   simp only [pushSotwOne, newWatched_self, narrowedSotw, List.isEmpty_nil, Bool.not_true, Bool.false_eq_true,
